@@ -218,32 +218,9 @@ fn mark_csr_segment_pages(
     meta_page_id: PageId,
     reachable: &mut BTreeSet<PageId>,
 ) -> Result<()> {
-    const META_MAGIC: [u8; 8] = *b"NDBCSRv1";
-
+    // The segment layout is owned by csr.rs; ask it for every page list (forward and reverse index).
     let meta = pager.read_page(meta_page_id)?;
-    if meta[0..8] != META_MAGIC {
-        return Err(Error::WalProtocol("invalid csr meta magic"));
-    }
-
-    let offsets_page_count = u32::from_le_bytes(meta[40..44].try_into().unwrap()) as usize;
-    let edges_page_count = u32::from_le_bytes(meta[44..48].try_into().unwrap()) as usize;
-
-    let needed = 48usize + (offsets_page_count + edges_page_count) * 8;
-    if needed > PAGE_SIZE {
-        return Err(Error::WalProtocol("csr meta page overflow"));
-    }
-
-    let mut off = 48usize;
-    for _ in 0..offsets_page_count {
-        let id = u64::from_le_bytes(meta[off..off + 8].try_into().unwrap());
-        off += 8;
-        if id != 0 {
-            reachable.insert(PageId::new(id));
-        }
-    }
-    for _ in 0..edges_page_count {
-        let id = u64::from_le_bytes(meta[off..off + 8].try_into().unwrap());
-        off += 8;
+    for id in crate::csr::segment_data_page_ids(&meta)? {
         if id != 0 {
             reachable.insert(PageId::new(id));
         }
